@@ -35,7 +35,7 @@ def main():
                     rc2, o2 = sh(f"./check.sh {pr} {os.environ.get('SEEDED_TIER','quick')}", cwd=ROOT)
                     lines = [l for l in o2.splitlines() if not l.startswith(("KNOWN-FINDING", "SUMMARY", "NOTE", "VIOLATION"))]
                     return pr, rc2, lines
-                with ThreadPoolExecutor(max_workers=6) as ex:
+                with ThreadPoolExecutor(max_workers=10) as ex:
                     for pr, rc2, lines in ex.map(one, props):
                         if rc2 != 0:
                             det["results"][pr] = {"exit": rc2, "reports": lines[:6]}
